@@ -69,7 +69,9 @@ def uniq (s : St) : Bool :=
 
 def handler : Handler := fun scn => do
   let mode := str scn "mode"
-  let mut st : St := ⟨bool scn "fin", 0, (arr scn "refs").map (fun j => ⟨str j "kind", str j "name"⟩), (arr scn "objs").map objOf⟩
+  let objs0 := (arr scn "objs").map objOf
+  let mut st : St := ⟨bool scn "fin", 0, (arr scn "refs").map (fun j => ⟨str j "kind", str j "name"⟩), objs0,
+    objs0.filter (·.ctrl == .other)⟩
   let mut outs : Array Json := #[]
   let mut ok := true
   let mut why := ""
@@ -97,6 +99,8 @@ def handler : Handler := fun scn => do
       ok := false; why := "C01:leak"
     if (uniq st) && !(states.all uniq) then
       ok := false; why := "C01:duplicate"
+    if !(states.all fun s' => s'.foreign0.all fun o => s'.objs.contains o) then
+      ok := false; why := "C02:foreign-touched"
     st := res.1
     let result := match res.2 with
       | none => "crashed"
